@@ -133,15 +133,15 @@ Proof.
   destruct (existsb is_simp r); simpl; [now rewrite IH | reflexivity].
 Qed.
 
-Lemma classes_confine moved m : classes (confine_with moved m) = classes m.
+Lemma classes_insert_block l m : classes (insert_block l m) = classes m.
 Proof.
-  unfold confine_with, insert_block. destruct moved.
-  - now rewrite classes_remove, classes_add_tc.
-  - unfold insert_after_last. destruct (existsb is_simp _).
-    + now rewrite classes_insert_go, classes_remove, classes_add_tc.
-    + unfold classes at 1. simpl. fold (classes (remove (i :: moved) (add_tc m))).
-      now rewrite classes_remove, classes_add_tc.
+  unfold insert_block. destruct l; [reflexivity|]. unfold insert_after_last. destruct (existsb is_simp m).
+  - apply classes_insert_go.
+  - reflexivity.
 Qed.
+
+Lemma classes_confine moved m : classes (confine_with moved m) = classes m.
+Proof. unfold confine_with. now rewrite classes_insert_block, classes_remove, classes_add_tc. Qed.
 
 (* ------------------------------------------------------------ what generated classes need stays bound *)
 Theorem confine_needed_bound moved src applied :
